@@ -294,6 +294,22 @@ class Model:
                             props.pop(dd.split(".")[0], None)
         if not props:
             return
+        # a getter that only derives a value from attributes which never change after construction is an attribute computed in
+        # __init__ in disguise: written back as that assignment (the confirmed tree's shape), reads stay attribute reads
+        self.materialised_properties = []
+        for name in list(props):
+            left = []
+            for c, f in props[name]:
+                if self._materialise_property(c, f):
+                    self.materialised_properties.append(f"{c.name}.{name}")
+                else:
+                    left.append((c, f))
+            if left:
+                props[name] = left
+            else:
+                del props[name]
+        if not props:
+            return
         stored: set = set()
         for m in self.modules.values():
             for n in ast.walk(m.tree):
@@ -349,6 +365,156 @@ class Model:
         for name, defs in props.items():
             for c, f in defs:
                 f.node.decorator_list = [d for d in f.node.decorator_list if (_dotted(d) or "") != "property"]
+
+    _PURE_CALLS = {"len", "int", "bool", "abs", "min", "max", "pow", "round", "divmod"}
+
+    def _attr_sites(self) -> dict:
+        """attribute name -> {"init_only": every store is a plain `x.a = ..` inside some __init__, "mutated": some `.a.<mutator>(` /
+        `.a[..] = ` / `del .a[..]` / augmented store exists}  (name-based over the whole package: an over-approximation)"""
+        memo = self.__dict__.get("_attr_sites_memo")
+        if memo is not None:
+            return memo
+        memo = {}
+        mutators = {"append", "insert", "pop", "extend", "remove", "clear", "sort", "reverse", "update", "setdefault", "popitem", "add", "discard",
+                    "__setitem__", "__delitem__"}
+        for m in self.modules.values():
+            for fn in ast.walk(m.tree):
+                if not isinstance(fn, (ast.FunctionDef, ast.AsyncFunctionDef, ast.Module, ast.ClassDef)):
+                    continue
+                in_init = isinstance(fn, ast.FunctionDef) and fn.name == "__init__"
+                for n in ast.iter_child_nodes(fn):
+                    stack = [n]
+                    while stack:
+                        x = stack.pop()
+                        if isinstance(x, (ast.FunctionDef, ast.AsyncFunctionDef, ast.ClassDef)) and x is not fn:
+                            continue
+                        if isinstance(x, ast.Attribute):
+                            d = memo.setdefault(x.attr, {"init_only": True, "mutated": False, "stores": 0})
+                            if isinstance(x.ctx, (ast.Store, ast.Del)):
+                                d["stores"] += 1
+                                if not in_init or isinstance(x.ctx, ast.Del):
+                                    d["init_only"] = False
+                        if isinstance(x, ast.AugAssign) and isinstance(x.target, ast.Attribute):
+                            memo.setdefault(x.target.attr, {"init_only": True, "mutated": False, "stores": 0})["init_only"] = False
+                        if isinstance(x, ast.Subscript) and isinstance(x.ctx, (ast.Store, ast.Del)) and isinstance(x.value, ast.Attribute):
+                            memo.setdefault(x.value.attr, {"init_only": True, "mutated": False, "stores": 0})["mutated"] = True
+                        if isinstance(x, ast.Call) and isinstance(x.func, ast.Attribute) and x.func.attr in mutators and isinstance(x.func.value, ast.Attribute):
+                            memo.setdefault(x.func.value.attr, {"init_only": True, "mutated": False, "stores": 0})["mutated"] = True
+                        if isinstance(x, ast.Call) and isinstance(x.func, ast.Name) and x.func.id in ("setattr", "delattr"):
+                            nm = x.args[1].value if len(x.args) > 1 and isinstance(x.args[1], ast.Constant) else None
+                            if nm is None:
+                                memo["*"] = True
+                            else:
+                                memo.setdefault(nm, {"init_only": True, "mutated": False, "stores": 0})["init_only"] = False
+                        stack.extend(ast.iter_child_nodes(x))
+        self.__dict__["_attr_sites_memo"] = memo
+        return memo
+
+    def _materialise_property(self, c: ClassInfo, f: FuncInfo) -> bool:
+        init = c.methods.get("__init__")
+        if init is None or not init.params:
+            return False
+        sites = self._attr_sites()
+        if sites.get("*"):
+            return False
+        body = body_without_docstring(f.node)
+        body = [st for st in body if not isinstance(st, ast.Assert)]
+        if len(body) != 1 or not isinstance(body[0], ast.Return) or body[0].value is None:
+            return False
+        e = body[0].value
+        s_get = f.params[0]
+        s0 = init.params[0]
+        reads: set = set()
+        for n in ast.walk(e):
+            if isinstance(n, ast.Name):
+                if n.id == s_get:
+                    continue
+                r = self.resolve_name(f.module, n.id)
+                import builtins as _b
+                if r is None and not hasattr(_b, n.id):
+                    return False
+                if isinstance(r, tuple) and r[0] == "assign":
+                    continue  # a module constant
+            if isinstance(n, ast.Call):
+                fn_ = n.func
+                ok = (isinstance(fn_, ast.Name) and fn_.id in self._PURE_CALLS) or \
+                     (isinstance(fn_, ast.Attribute) and isinstance(fn_.value, ast.Name) and fn_.value.id == "math") or \
+                     (isinstance(fn_, ast.Attribute) and fn_.attr in ("bit_length",))
+                if not ok:
+                    return False
+            if isinstance(n, (ast.List, ast.Dict, ast.Set, ast.ListComp, ast.DictComp, ast.SetComp, ast.GeneratorExp, ast.Lambda, ast.Await, ast.Yield,
+                              ast.YieldFrom, ast.NamedExpr, ast.Starred)):
+                return False
+        # first-level attributes of self that the expression reads
+        class V(ast.NodeVisitor):
+            def visit_Attribute(self, n: ast.Attribute):
+                if isinstance(n.value, ast.Name) and n.value.id == s_get:
+                    reads.add(n.attr)
+                else:
+                    self.generic_visit(n)
+        V().visit(e)
+        if any(isinstance(n, ast.Name) and n.id == s_get for n in ast.walk(e)
+               if not any(isinstance(p_, ast.Attribute) and p_.value is n for p_ in ast.walk(e))):
+            return False  # bare `self`
+        for a in reads:
+            d = sites.get(a)
+            if d is None or not d["init_only"] or d["mutated"] or d["stores"] == 0:
+                return False
+            if a in {nm for k in self.classes.values() for nm in k.methods}:
+                return False
+        # mirrored parameters and where the dependencies are stored in __init__
+        top = init.node.body
+        mirrored: dict = {}
+        last = -1
+        param_set = set(init.params[1:])
+        rebound = {n.id for n in ast.walk(init.node) if isinstance(n, ast.Name) and isinstance(n.ctx, ast.Store)}
+        for i, st in enumerate(top):
+            t = v = None
+            if isinstance(st, ast.Assign) and len(st.targets) == 1:
+                t, v = st.targets[0], st.value
+            elif isinstance(st, ast.AnnAssign) and st.value is not None:
+                t, v = st.target, st.value
+            if t is not None and isinstance(t, ast.Attribute) and isinstance(t.value, ast.Name) and t.value.id == s0 and isinstance(v, ast.Name) \
+                    and v.id in param_set and v.id not in rebound and sites.get(t.attr, {}).get("stores") == 1:
+                mirrored[t.attr] = v.id
+            stores_here = {n.attr for n in ast.walk(st) if isinstance(n, ast.Attribute) and isinstance(n.ctx, ast.Store)
+                           and isinstance(n.value, ast.Name) and n.value.id == s0}
+            is_super = any(isinstance(n, ast.Call) and isinstance(n.func, ast.Attribute) and n.func.attr == "__init__" for n in ast.walk(st))
+            if stores_here & reads or (is_super and any(a not in {x.attr for x in ast.walk(init.node) if isinstance(x, ast.Attribute)
+                                                                      and isinstance(x.ctx, ast.Store)} for a in reads)):
+                last = i
+        stored_in_init = {x.attr for x in ast.walk(init.node) if isinstance(x, ast.Attribute) and isinstance(x.ctx, ast.Store)}
+        if any(a not in stored_in_init for a in reads) and not any(
+                isinstance(n, ast.Call) and isinstance(n.func, ast.Attribute) and n.func.attr == "__init__" for n in ast.walk(init.node)):
+            return False
+        import copy as _copy4
+
+        class Sub(ast.NodeTransformer):
+            def visit_Attribute(self, n: ast.Attribute):
+                if isinstance(n.value, ast.Name) and n.value.id == s_get:
+                    if n.attr in mirrored:
+                        return ast.copy_location(ast.Name(id=mirrored[n.attr], ctx=ast.Load()), n)
+                    return ast.copy_location(ast.Attribute(value=ast.Name(id=s0, ctx=ast.Load()), attr=n.attr, ctx=ast.Load()), n)
+                return self.generic_visit(n)
+        e2 = Sub().visit(_copy4.deepcopy(e))
+        at = top[last] if last >= 0 else (top[0] if top else init.node)
+        new_st = ast.copy_location(ast.Assign(targets=[ast.Attribute(value=ast.Name(id=s0, ctx=ast.Load()), attr=f.name, ctx=ast.Store())], value=e2,
+                                              lineno=getattr(at, "lineno", 0)), at)
+        ast.fix_missing_locations(new_st)
+        node = _copy4.copy(init.node)
+        pos = last + 1
+        # keep a leading docstring in front
+        if pos == 0 and top and isinstance(top[0], ast.Expr) and isinstance(top[0].value, ast.Constant) and isinstance(top[0].value.value, str):
+            pos = 1
+        node.body = list(top[:pos]) + [new_st] + list(top[pos:])
+        init.__dict__.setdefault("raw_node", init.node)
+        init.node = node
+        # the getter is gone from the model
+        c.methods.pop(f.name, None)
+        self.functions.pop(f.qname, None)
+        self._attr_sites_memo = None  # type: ignore[assignment]
+        self.__dict__.pop("_attr_sites_memo", None)
+        return True
 
     def _inline_new_helpers(self, new_helpers: dict) -> None:
         from .inline import Inliner
